@@ -205,7 +205,8 @@ class IndexTyper:
         if isinstance(e, ast.Compare):
             ks = [self.ev(e.left)] + [self.ev(c) for c in e.comparators]
             ii = [k for k in ks if isinstance(k, tuple) and k[0] == "I"]
-            if len(ii) >= 2 and len({k[1] for k in ii}) > 1:
+            # (1, 0) and (0, +1) are the same numbering: a base mismatch is a mix-up only if the shifts base + offset differ too
+            if len(ii) >= 2 and len({k[1] for k in ii}) > 1 and len({k[1] + k[2] for k in ii}) > 1:
                 self.err(e, f"comparison mixes 0-based and 1-based indices {[(k[1], k[2]) for k in ii]}")
             elif len(ii) >= 2:
                 self.site(e, "compare")
